@@ -453,7 +453,30 @@ type Explorer struct {
 	OnEdge   func(s *State, from *ssa.BasicBlock, succ int) bool
 	volatile map[*ssa.Alloc]bool
 	volDone  map[*ssa.Alloc]bool
-	keyIDc   map[string][]int
+	// syncWriters: for cells written only by literals that are passed directly to known-synchronous callees
+	// (broadcast.HoldLock*, sync.Once.Do, ...): the call instructions during which the cell may change.
+	syncWriters map[*ssa.Alloc]map[ssa.Instruction]bool
+	keyIDc      map[string][]int
+}
+
+// knownSyncCallee: callees documented to run their function argument before returning and not to retain it.
+func knownSyncCallee(ci ssa.CallInstruction) bool {
+	fo := CallObj(ci.Common())
+	if fo == nil || fo.Pkg() == nil {
+		return false
+	}
+	switch fo.Pkg().Path() {
+	case broadcastPkg:
+		switch fo.Name() {
+		case "HoldLock", "HoldLockMaybeAsync", "TryHoldLock":
+			return fo.Name() != "HoldLockMaybeAsync"
+		}
+	case "sync":
+		return fo.Name() == "Do"
+	case "slices", "sort":
+		return true
+	}
+	return false
 }
 
 type workItem struct {
@@ -472,10 +495,38 @@ func (e *Explorer) isVolatile(a *ssa.Alloc) bool {
 	}
 	e.volDone[a] = true
 	v := false
+	syncOnly := true
+	calls := map[ssa.Instruction]bool{}
 	for _, st := range e.P.Stores(a) {
-		if st.Parent() != a.Parent() {
-			v = true
+		g := st.Parent()
+		if g == a.Parent() {
+			continue
 		}
+		v = true
+		// is the writer a literal of the cell's own function that is only ever passed directly to a synchronous callee?
+		if g.Parent() != a.Parent() {
+			syncOnly = false
+			continue
+		}
+		for _, mc := range e.P.MakeClosureSites(g) {
+			if mc.Referrers() == nil {
+				continue
+			}
+			for _, r := range nonDebug(*mc.Referrers()) {
+				ci, isCall := r.(*ssa.Call)
+				if !isCall || !knownSyncCallee(ci) {
+					syncOnly = false
+					continue
+				}
+				calls[ci] = true
+			}
+		}
+	}
+	if v && syncOnly {
+		if e.syncWriters == nil {
+			e.syncWriters = map[*ssa.Alloc]map[ssa.Instruction]bool{}
+		}
+		e.syncWriters[a] = calls
 	}
 	if a.Referrers() != nil {
 		for _, r := range *a.Referrers() {
@@ -483,9 +534,11 @@ func (e *Explorer) isVolatile(a *ssa.Alloc) bool {
 			case *ssa.Store, *ssa.UnOp, *ssa.MakeClosure, *ssa.DebugRef:
 			default:
 				v = true
+				delete(e.syncWriters, a) // the address escapes: anything may write it
 			}
 			if st, ok := r.(*ssa.Store); ok && st.Val == ssa.Value(a) {
 				v = true
+				delete(e.syncWriters, a)
 			}
 		}
 	}
@@ -663,6 +716,9 @@ func (e *Explorer) Run(fn *ssa.Function, init *State) {
 				}
 				for cell := range s.Cell {
 					if e.isVolatile(cell) {
+						if sw, ok := e.syncWriters[cell]; ok && !sw[ins] {
+							continue // only changes during the synchronous calls that receive its writer
+						}
 						delete(s.Cell, cell)
 					}
 				}
